@@ -143,9 +143,10 @@ pub fn gen_session(seed: u64, run: u64, thorough: bool) -> Session {
         ops.push(PlannedOp::new(Op::ProbeText { uri: u.clone() }));
     }
     for (k, u) in open.iter().enumerate() {
+        // one at a time: the probes must not themselves run into the concurrency limit
         ops.push(PlannedOp::new(Op::Request { id: 9000 + k as i64, method: "glas/syntaxTree".into(), uri: u.clone(), pos: [0, 0], extra: json!({}) }));
+        ops.push(PlannedOp::new(Op::Barrier));
     }
-    ops.push(PlannedOp::new(Op::Barrier));
     let mut crashes = Vec::new();
     if rng.chance(1, 4) {
         for _ in 0..rng.range(1, 2) {
